@@ -153,6 +153,20 @@ func sameView(got, want view) bool {
 	return canon.EqualSplit(got.data, want.data)
 }
 
+// repeatable re-reads two configs that just compared unequal. Under VarExp a
+// config whose references form a cycle that a default absorbs may unpack
+// differently from one call to the next (evaluation follows map order; that
+// is C09's subject), and then neither reading is "the" data: if any re-reading
+// makes the two agree, the difference is not attributed to the flag.
+func repeatable(a, b *ucfg.Config, opts []ucfg.Option) bool {
+	for i := 0; i < 8; i++ {
+		if sameView(viewOf(a, opts), viewOf(b, opts)) {
+			return false
+		}
+	}
+	return true
+}
+
 func isPanic(err error) bool { return err != nil && strings.Contains(err.Error(), " panicked: ") }
 
 // hasNonFinite reports whether the data holds a NaN or an infinity, which
@@ -453,6 +467,7 @@ func runKV(c KVCase, r *runlog.R) error {
 	var paths [][]string
 	var classes []string
 
+args:
 	for i, arg := range c.Args {
 		// the definition first: if the public pieces themselves panic on this
 		// argument there is nothing to compare with (that is C07's subject)
@@ -463,11 +478,9 @@ func runKV(c KVCase, r *runlog.R) error {
 		}
 		if failedAt >= 0 {
 			// anything may follow; the first error stays
-			var setErr error
-			if err := uc.Safe("Set", func() error { setErr = fv.Set(arg); return nil }); err != nil {
+			if err := uc.Safe("Set", func() error { _ = fv.Set(arg); return nil }); err != nil {
 				return fmt.Errorf("arg %d %q (after the failure of arg %d): %v", i, arg, failedAt, err)
 			}
-			_ = setErr
 			if i%2 == 1 {
 				if err := uc.Safe("String", func() error { _ = fv.String(); return nil }); err != nil {
 					return fmt.Errorf("after arg %d %q: %v", i, arg, err)
@@ -514,6 +527,10 @@ func runKV(c KVCase, r *runlog.R) error {
 				return fmt.Errorf("arg %d %q: Set failed with %v, creating and merging the setting works", i, arg, setErr)
 			}
 			paths = append(paths, keyPath(st.key, c.Opts.PathSep))
+		case st.kind == stSetting && !known:
+			// the fold no longer follows the flag's config; a merge error of the fold says nothing
+			classes = append(classes, "stopped: merge error after the config became unspecified")
+			break args
 		case st.kind == stSetting: // merging the setting fails
 			classes = append(classes, "arg:merge fails")
 			// Set is not told about merge errors by the collector's interface; only Error() is asserted
@@ -567,6 +584,11 @@ func runKV(c KVCase, r *runlog.R) error {
 			return fmt.Errorf("arg %d %q: %v", i, arg, got.err)
 		}
 		if !sameView(got, want) {
+			if c.Opts.VarExp && !repeatable(fv.Config(), acc, opts) {
+				classes = append(classes, "varexp: unpacking is not repeatable, data not asserted")
+				known = false
+				continue
+			}
 			return fmt.Errorf("after arg %d %q the flag's config differs from folding the settings (%s):\n got  %s\n want %s",
 				i, arg, c.Opts.Policy, got, want)
 		}
@@ -694,7 +716,11 @@ func runKVFlagSet(c KVCase, r *runlog.R) error {
 			return got.err
 		}
 		if !sameView(got, want) {
-			return fmt.Errorf("the config returned by ConfigVar differs from folding the settings (%s):\n got  %s\n want %s", c.Opts.Policy, got, want)
+			if c.Opts.VarExp && !repeatable(cfg, acc, opts) {
+				r.Class("varexp: unpacking is not repeatable, data not asserted")
+			} else {
+				return fmt.Errorf("the config returned by ConfigVar differs from folding the settings (%s):\n got  %s\n want %s", c.Opts.Policy, got, want)
+			}
 		}
 	}
 	c.Opts.classes(r)
@@ -709,7 +735,7 @@ func runKVFlagSet(c KVCase, r *runlog.R) error {
 
 var subKV = runlog.Register(&runlog.Sub[KVCase]{
 	Name: "flag-kv",
-	Rule: "1-8 arguments for one NewFlagKeyValue flag (or flag.ConfigVar in a standard FlagSet): keys of 1-3 segments over {a,b,c,d,0,1,2} plus odd spellings, with '=' or bare, values rendered from a value grammar covering every syntax of parse.Value (numbers, bools, null, bare/quoted strings, comma lists, [..], {..}, nesting, ${..} references), empty values and malformed values (fixed near-misses and truncated containers) at any position; options PathSep, VarExp(+Resolve), one of the 5 merge policies, autoBool, optional initial config. Oracle: fold of ucfg.NewFrom(map{key: parse.Value(value)}, opts...) with Merge(.., opts...) compared after every argument up to the first failing one; Set returns that argument's error; Error() stays the first error; key= changes nothing; String() is the JSON of the data. Non-trivial: two applied arguments whose key paths are equal or prefix of one another under a non-default policy, or a failing argument followed by further arguments. Distinct: hash of the case.",
+	Rule: "1-8 arguments for one NewFlagKeyValue flag driven through Set (5/6) or for flag.ConfigVar in a standard library FlagSet parsed as -E arg -E arg ... (1/6): keys of 1-3 segments over {a,b,c,d,0,1,2} plus odd spellings (empty segments, signs, other bases, blanks, non-ASCII, the index cap), 40% of the keys repeat an earlier one, with '=' or bare, values rendered from a grammar covering every syntax parse.Value documents (numbers, bools, null, bare/quoted strings, comma lists, [..], {..}, nesting, ${..} references), empty values, and malformed values (fixed near-misses, unterminated references, well-formed containers cut at any position) at any position; options PathSep, VarExp (+Resolve), one of the 5 merge policies; autoBool on/off; optional initial config. Oracle: the fold of ucfg.NewFrom(map{key: parse.Value(value)}, opts...) with Merge(.., opts...) from the initial config, compared (canonical dump, or both fail to unpack) after every argument up to the first failing one; Config() keeps its identity (and is the initial config); Set returns that argument's error; Error() is nil before and stays the first error after any further Set/String calls; key= changes nothing and is no error; bare key = true with autoBool (without autoBool the docs are silent: an error is treated as the failing argument, acceptance ends the data assertions); String() is the JSON of the data whenever the data can be unpacked, has no NaN/Inf and no top-level list part. Not asserted: the config after a failure. Discarded: cases in which parse.Value/NewFrom/Merge themselves panic on an argument (C07's subject). Non-trivial: two applied arguments whose key paths are equal or a prefix of one another under a non-default policy, or a failing argument followed by further arguments. Distinct: hash of the case.",
 	Gen:  genKV,
 	Run:  runKV,
 })
